@@ -53,6 +53,9 @@ type vWire struct {
 	s    *stage.Stage
 	tags map[string]string // file name -> content version of the source file
 	sent int64
+	// corruptNext: the bytes of the next transmitted part are damaged in transit
+	// (same length, other content)
+	corruptNext bool
 }
 
 func (w *vWire) metas(p sts.Payload) []sts.Binned {
@@ -70,9 +73,13 @@ func (w *vWire) transmit(p sts.Payload) (int, error) {
 	w.s.Prepare(ms)
 	for k, m := range ms {
 		b, e := m.GetSlice()
+		tag := w.tags[m.GetName()]
+		if w.corruptNext {
+			tag, w.corruptNext = "junk", false
+		}
 		err := w.s.Receive(&sts.Partial{Name: m.GetName(), Prev: m.GetPrev(), Size: m.GetFileSize(), Hash: m.GetFileHash(),
 			Time: marshal.NanoTime{Time: m.GetFileTime()}, Source: "src", Parts: []*sts.ByteRange{{Beg: b, End: e}}},
-			w.v.Reader(w.tags[m.GetName()], b, e-b))
+			w.v.Reader(tag, b, e-b))
 		if err != nil {
 			return k, err
 		}
@@ -134,6 +141,11 @@ func H_E2E_PowerFailure(v *verifrt.T) {
 	mtime := v.Now().Add(-2 * time.Hour)
 	src := &vSource{v: v, files: map[string]*vSrcFile{"g/a": {name: "g/a", size: size, time: mtime, tag: "v1"}}, order: []string{"g/a"}}
 	wire := &vWire{v: v, tags: map[string]string{"g/a": "v1"}}
+	if v.Param("CORRUPT", 0) == 1 && v.Choose("first-part-damaged-in-transit", 2) == 1 {
+		v.Version("junk", size)
+		wire.corruptNext = true
+		v.Reach("damaged-in-transit")
+	}
 	two := v.Param("FILES", 1) == 2
 	if two {
 		// a second, newer file of the same group: in-order delivery end to end
@@ -216,6 +228,7 @@ func H_E2E_PowerFailure(v *verifrt.T) {
 		v.KillProcess()
 	}
 	consume()
+	deliveredInRun1 := deliveries == 1
 	sentBefore := wire.sent
 	v.Assert(len(src.removed) == 0 || deliveries == 1, "C02 the source file is removed only after the receiver delivered and confirmed that version")
 	// both sides start again — at once, or after three days (the delivery is
@@ -228,6 +241,14 @@ func H_E2E_PowerFailure(v *verifrt.T) {
 	run()
 	v.KillProcess()
 	consume()
+	if v.Param("CORRUPT", 0) == 1 && deliveries == 0 {
+		// a one-shot run that ends with a failed validation leaves the
+		// retransmission to the next run (a continuous sender retries at once)
+		run()
+		v.KillProcess()
+		consume()
+		v.Reach("retransmitted-in-a-later-run")
+	}
 	v.Assert(deliveries == 1, "C05/C06 the file is delivered exactly once, whatever the point of the power failure")
 	if two {
 		v.Assert(deliveriesB == 1, "C05/C06 every file is delivered exactly once, whatever the point of the power failure")
@@ -248,7 +269,7 @@ func H_E2E_PowerFailure(v *verifrt.T) {
 		}
 		v.Reach("two-files")
 	}
-	if !crashed {
+	if !crashed && deliveredInRun1 {
 		v.Assert(wire.sent == sentBefore, "C07 a restart after a completed transfer transmits nothing")
 	}
 	v.Assert(wire.s.GetFileStatus("g/a", mtime) == sts.ConfirmPassed, "C06 the delivered file is confirmed after the restart")
